@@ -141,6 +141,13 @@ def step (line : String) : String :=
     | some (some (.res p)), some (some (.res q)), some st =>
       showR (fun l => "[" ++ ",".intercalate (l.map showPeriod) ++ "]") (periodsFromUntil p q st)
     | _, _, _ => "bad-op"
+  | ["speq", a, b, st, a', b', st'] => match endpoint? a, endpoint? b, st.toInt?, endpoint? a', endpoint? b', st'.toInt? with
+    | some a, some b, some st, some a', some b', some st' =>
+      (match Span.make a b st, Span.make a' b' st' with
+        | .ok s, .ok t => showR showBool (s.eq t)
+        | .error e, _ => showErr e
+        | _, .error e => showErr e)
+    | _, _, _, _, _, _ => "bad-op"
   | "enc" :: args =>   -- get_encompassing_span: `-` = None, `A:<p|->,<p|->` = object with start/end attributes, `S:p,-,p` = sequence
     let parseP : String → Option (Option Period) := fun w =>
       if w = "-" then some none else match endpoint? w with | some (some (.res p)) => some (some p) | _ => none
